@@ -111,6 +111,14 @@ def run(ctx: Ctx, env):
                                  f"[{vs}] {label}: builds {nm}(..., literal_execute=True): SQLAlchemy renders such a parameter into the statement text "
                                  "at execution time, so filter values end up in the SQL string", p.entry.get("where", ""),
                                  "id in (1, 2, ..., 501)  vs  id in (2, 3, ..., 502)")
+                    if nm in ("bindparam", "BindParameter") and len(sub0[2]) >= 1 and sub0[2][0][0] == "const" and isinstance(sub0[2][0][1], str) \
+                            and kw0.get("unique") not in (("const", True),):
+                        # a fixed parameter name without unique=True: two such parameters in one statement are one parameter (last value wins)
+                        ho = ".".join(p.entry.get("handler", "?").rsplit(".", 2)[-2:])
+                        ctx.fail("R1.one-parameter-per-value", f"{ho}|{nm}|{sub0[2][0][1]}",
+                                 f"[{vs}] {label}: binds the value as bindparam({sub0[2][0][1]!r}, ...) - a fixed name without unique=True: SQLAlchemy merges "
+                                 "same-named parameters when it compiles, so of two literals in one filter only the last value is sent",
+                                 p.entry.get("where", ""), "score gt 0.5 and score lt 1.5")
         for label, p in paths:
             if p.outcome != "return":
                 continue
